@@ -217,3 +217,21 @@ func init() {
 		}
 	}
 }
+
+func init() {
+	// wide: run generic rules over every package of the module and print what fails (triage only)
+	exploreExtra["wide4"] = func(p *Prog) {
+		c := NewCtx(p, "X", "quick")
+		c.quiet = true
+		ruleTransferComplete(c, "TRANSFER-COMPLETE", p.ModulePkgs(), 0)
+		ruleEqualityHelper(c, "EQUALITY-HELPER", p.ModulePkgs())
+		n := map[string]int{}
+		for _, o := range c.Obls {
+			n[o.Rule]++
+			if !o.OK || o.Rule == "TRANSFER-COMPLETE" {
+				fmt.Printf("%s\t%s\t%s\t%v\t%s\n", o.Pos, o.Rule, o.Instance, o.OK, short(o.Msg, 260))
+			}
+		}
+		fmt.Println(n)
+	}
+}
